@@ -60,7 +60,11 @@ func (t *TCPListener) SetServer(srv *Server) {
 func (t *TCPListener) Port() int { return t.L.Addr().(*net.TCPAddr).Port }
 
 // Close stops accepting, releases stalls and waits (bounded) for the sessions to finish.
-func (t *TCPListener) Close() []*Session {
+func (t *TCPListener) Close() []*Session { return t.CloseFrom(0) }
+
+// CloseFrom is Close, but only the sessions from index first on are waited for (earlier ones may belong
+// to connections the client deliberately left open).
+func (t *TCPListener) CloseFrom(first int) []*Session {
 	_ = t.L.Close()
 	<-t.done
 	t.mu.Lock()
@@ -71,7 +75,10 @@ func (t *TCPListener) Close() []*Session {
 	ss := append([]*Session{}, t.Sessions...)
 	t.mu.Unlock()
 	deadline := time.After(3 * time.Second)
-	for _, s := range ss {
+	for i, s := range ss {
+		if i < first {
+			continue
+		}
 		select {
 		case <-s.Done:
 		case <-deadline:
